@@ -359,10 +359,10 @@ def _signal_discharge_for(ctx, cls: str, f: Func, D: str) -> Tuple[bool, str]:
                 ch, p_ = p_, getattr(p_, "_parent", None)
             # call on an interpreter constructed in this function
             fn = cs.call.func
-            if isinstance(fn, ast.Attribute) and isinstance(fn.value, ast.Name) and any(tg in B for tg in cs.targets):
-                rcv = fn.value.id
-                ctor = [n for n in g.own_nodes() if isinstance(n, ast.Assign) and any(isinstance(x, ast.Name) and x.id == rcv for x in n.targets) and isinstance(n.value, ast.Call) and cg._class_visible(call_name(n.value) or "", g) is f.cls]
-                if ctor:
+            if isinstance(fn, ast.Attribute) and any(tg in B for tg in cs.targets):
+                from ..util import is_fresh_instance
+
+                if is_fresh_instance(ctx, fn.value, g, f.cls):
                     for tg in cs.targets:
                         fresh_ok.add((id(g), id(tg)))
     api = t.class_named("Context")
@@ -614,8 +614,9 @@ def rule_signal_not_swallowed(ctx, rep, rid: str) -> None:
                 fresh = True
                 for c in reaching:
                     fn = c.func
-                    rcv = fn.value.id if isinstance(fn, ast.Attribute) and isinstance(fn.value, ast.Name) else None
-                    ctor = rcv is not None and any(isinstance(a, ast.Assign) and any(isinstance(x, ast.Name) and x.id == rcv for x in a.targets) and isinstance(a.value, ast.Call) and cg._class_visible(call_name(a.value) or "", f) is df.cls for a in f.own_nodes())
+                    from ..util import is_fresh_instance
+
+                    ctor = isinstance(fn, ast.Attribute) and is_fresh_instance(ctx, fn.value, f, df.cls)
                     # pure helper calls (parser/compiler constructors) cannot run callbacks of this interpreter
                     cs = cg.site_of_call.get(id(c))
                     if not ctor and cs is not None and (cs.kind == "dynamic" or any(id(tg) in bid or cg.reaches(tg, bid) for tg in cs.targets)):
